@@ -161,7 +161,7 @@ def run_case(ctx, func, name, case, args=()):
         raise
     except BaseException as e:  # noqa
         who, where = _blame(e)
-        tbtxt = "".join(traceback.format_exception(type(e), e, e.__traceback__))[-1800:]
+        tbtxt = "".join(traceback.format_exception(type(e), e, e.__traceback__))[-6000:]
         if who == "repo":
             ctx.ok("no-undocumented-exception")
             ctx.fail("exception:%s@%s" % (type(e).__name__, where),
